@@ -163,6 +163,19 @@ def handleMacFlush (args : List String) : Verdict :=
     | _, _, _, _ => bad "args"
   | _ => bad "arity"
 
+/-- `winalloc <src> <page> <a1,a2,…> | -` : the Windows / AArch64 allocator judged on the source as translated -/
+def handleWinAlloc (args : List String) : Verdict :=
+  match args with
+  | [sS, pS, aS] =>
+    match parseHex sS, parseHex pS with
+    | some src, some page =>
+      let answers := (aS.splitOn ",").filterMap parseHex
+      let (reach, freed) := Gen.winAlloc src page answers
+      { agree := true, propOk := reach && freed, branch := "winalloc",
+        detail := (if reach then "" else " key=c11.win-accepted-unreachable") ++ (if freed then "" else " key=c11.win-rejected-left") }
+    | _, _ => bad "args"
+  | _ => bad "arity"
+
 /-- `a32patch <src> <target> | ok addr= bytes= frame= saved= psize= restored=` -/
 def handleA32Patch (args obs : List String) : Verdict :=
   match args with
